@@ -101,6 +101,20 @@ def xread(c):
                      if r.get("ok") else "None" for r in (c["read"] or [])])
 
 
+def omore(m):
+    """SpansWireY.omore: trace_state, dropped counts, links, flags of a span (None = none of them set)"""
+    if not m:
+        return "no_more"
+    links = coq_list(["(Build_olink %s %s %s %s %s %s)" % (HX(l["tid"]), HX(l["sid"]), S(l["state"]), kvs(l.get("attrs") or []), Z(l["dropped"]), Z(l["flags"]))
+                      for l in (m.get("links") or [])])
+    return "(Build_omore %s %s %s %s %s %s)" % (S(m["state"]), Z(m["dattrs"]), Z(m["devents"]), links, Z(m["dlinks"]), Z(m["flags"]))
+
+
+def yread(c):
+    """per stored row: the further fields of the span OutputQuery returned"""
+    return coq_list(["(Some %s)" % omore(r.get("more")) if r.get("ok") else "None" for r in (c["read"] or [])])
+
+
 def ores(r):
     return "(Build_ores %s %s %s)" % (
         "true" if r["has_res"] else "false", kvs(r["attrs"]),
@@ -198,7 +212,7 @@ def case_to_coq(c):
         coq_list([rspan(r) for r in (c["read"] or [])]))
 
 
-HEADER = ("From Coq Require Import List ZArith NArith Bool String Ascii Uint63.\nFrom Qryn Require Import model.Spans model.SpansChunk model.SpansWire model.SpansStore model.SpansJson model.SpansWireX.\n"
+HEADER = ("From Coq Require Import List ZArith NArith Bool String Ascii Uint63.\nFrom Qryn Require Import model.Spans model.SpansChunk model.SpansWire model.SpansStore model.SpansJson model.SpansWireX model.SpansWireY.\n"
           "Import ListNotations.\nOpen Scope string_scope.\nOpen Scope Z_scope.\n")
 
 
@@ -225,11 +239,13 @@ def cases_file(cases):
     cc = "Definition ccases : list ccase := %s.\n" % coq_list(
         ["(Build_ccase c%d %s %s)" % (c["id"], coq_list([Z(n) for n in c.get("text_lens") or []]),
                                       coq_list(["(%d, %d)" % (a, b) for a, b in c.get("resp") or []])) for c in cases])
-    wc = "Definition xcases : list xcase := %s.\n" % coq_list(
-        ["(Build_xcase %d (c_in c%d) %s %s %s)" % (c["id"], c["id"],
+    wc = "Definition ycases : list ycase := %s.\nDefinition xcases : list xcase := map yc_x ycases.\n" % coq_list(
+        ["(Build_ycase (Build_xcase %d (c_in c%d) %s %s %s) %s %s)" % (c["id"], c["id"],
             coq_list([oextra(sp) for r in c["otlp"] for sc in (r["scopes"] or []) for sp in (sc or [])]),
             coq_list(["(%d, (%d%%uint63, %d%%uint63))" % (n, fp[0], fp[1]) for n, fp in zip(c.get("pay_lens") or [], c.get("pay_fp") or [])]),
-            xread(c))
+            xread(c),
+            coq_list([omore(sp.get("more")) for r in c["otlp"] for sc in (r["scopes"] or []) for sp in (sc or [])]),
+            yread(c))
          for c in cases if c["fmt"] == "otlp"])
     return HEADER + "\n".join(IN.defs) + "\n" + "\n".join(one) + "\n" + lst + cc + wc + tc
 
@@ -244,8 +260,9 @@ def eval_text(ck, name, cases_txt):
            "Definition V := Eval vm_compute in spec_violations cases.\nPrint V.\n"
            "Definition R := Eval vm_compute in regressions cases.\nPrint R.\n"
            "Definition CM := Eval vm_compute in chunk_mismatches (fun c => psz_store (cc_lens c)) ccases.\nPrint CM.\n"
-           "Definition WM := Eval vm_compute in wirex_mismatches xcases.\nPrint WM.\n"
-           "Definition WR := Eval vm_compute in wirex_roundtrip_failures xcases.\nPrint WR.\n"
+           "Definition WM := Eval vm_compute in (wirey_mismatches ycases ++ wirex_read_mismatches xcases)%list.\nPrint WM.\n"
+           "Definition WR := Eval vm_compute in wirey_roundtrip_failures ycases.\nPrint WR.\n"
+           "Definition YV := Eval vm_compute in yread_violations ycases.\nPrint YV.\n"
            "Definition CV := Eval vm_compute in chunk_spec_violations ccases.\nPrint CV.\n"
            "Definition TM := Eval vm_compute in tok_mismatches tcases.\nPrint TM.\n"
            "Definition TI := Eval vm_compute in tok_illformed tcases.\nPrint TI.\n"
@@ -256,7 +273,7 @@ def eval_text(ck, name, cases_txt):
         return None, out
     flat = " ".join(out.split())
     res = {}
-    for nm in ("M", "V", "CM", "CV", "WM", "WR", "TM", "TI", "TV", "XV"):
+    for nm in ("M", "V", "CM", "CV", "WM", "WR", "TM", "TI", "TV", "XV", "YV"):
         m = re.search(r"(?<![A-Z])" + nm + r" = \[(.*?)\]\s*: list Z", flat)
         if not m:
             return None, out
@@ -365,7 +382,7 @@ def run_spans(ck):
                   "case ids: %s; %s" % ([c["id"] for c in changed[:10]], changed[0]["retry_diff"][:300] if changed else ""))
     cases = [c for c in cases if not c.get("panic")]
     byid = {c["id"]: c for c in cases}
-    tot = {"M": [], "V": [], "R": [], "CM": [], "CV": [], "WM": [], "WR": [], "TM": [], "TI": [], "TV": [], "XV": []}
+    tot = {"M": [], "V": [], "R": [], "CM": [], "CV": [], "WM": [], "WR": [], "TM": [], "TI": [], "TV": [], "XV": [], "YV": []}
     # Coq spends ~0.1 s per request elaborating the literal: shards are evaluated by parallel coqc processes
     shard = 100
     heavy = [c for c in cases if size_of(c) > 40000]           # the > 64 KiB / > 1 MiB requests: a shard each
@@ -446,14 +463,15 @@ def run_spans(ck):
     # fingerprints of every stored payload), and the round trip dec_span (enc_span s) = s evaluated on every payload of the run
     wm, wr = tot["WM"], tot["WR"]
     notlp = sum(len(c.get("pay_fp") or []) for c in cases if c["fmt"] == "otlp")
-    ck.obligation("correspondence: model SpansWireX.enc_spanx (protobuf wire encoding of the stored span incl. its events and status) = the bytes of the payload column "
-                  "(length and two 53-bit fingerprints) for %d stored OTLP payloads" % notlp, not wm, "mismatching case ids: %s" % wm[:10])
-    ck.obligation("every stored OTLP payload of the run lies in the domain of dec_enc_spanx and dec_spanx (enc_spanx s x) = (s, x) evaluates to true",
+    ck.obligation("correspondence: model SpansWireY.enc_spany (protobuf wire encoding of the stored span with ALL its fields: events, status, trace_state, dropped "
+                  "counts, links, flags, in field-number order) = the bytes of the payload column (length and two 53-bit fingerprints) for %d stored OTLP payloads, "
+                  "and the model's read-back of events, status and the further fields = OutputQuery's" % notlp, not wm, "mismatching case ids: %s" % wm[:10])
+    ck.obligation("every stored OTLP payload of the run lies in the domain of dec_enc_spany and dec_spany (enc_spany s x y) = (s, x, y) evaluates to true",
                   not wr, "case ids: %s" % wr[:10])
     if wm and not viol and not mism:
         w = min((byid[i] for i in wm), key=size_of)
         ck.violation({"property": PID, "kind": "model/implementation disagree on the bytes of the stored OTLP payload", "case": slim(w),
-                      "payload_lengths": w.get("pay_lens"), "broken": "correspondence SpansWire.enc_span vs proto.Marshal in OTLPDecoder.Decode"},
+                      "payload_lengths": w.get("pay_lens"), "broken": "correspondence SpansWireY.enc_spany vs proto.Marshal in OTLPDecoder.Decode"},
                      no_input=True)
     xv = tot["XV"]
     nextra = sum(1 for c in cases if c["fmt"] == "otlp" for r in c["otlp"] for sc in (r["scopes"] or []) for sp in (sc or []) if sp.get("events") or sp.get("status"))
@@ -463,6 +481,18 @@ def run_spans(ck):
         w = min((byid[i] for i in xv), key=size_of)
         ck.violation({"property": PID, "kind": "a stored OTLP span reads back with other events or another status than were pushed", "case": slim(w),
                       "read": w["read"], "replay": "harness spans --cases <file holding the 'case' object on one line> --out /dev/stdout"})
+    yv = tot["YV"]
+    nmore = sum(1 for c in cases if c["fmt"] == "otlp" for r in c["otlp"] for sc in (r["scopes"] or []) for sp in (sc or []) if sp.get("more"))
+    nlinks = sum(len(sp["more"].get("links") or []) for c in cases if c["fmt"] == "otlp" for r in c["otlp"] for sc in (r["scopes"] or []) for sp in (sc or []) if sp.get("more"))
+    ck.obligation("spec oracle on the further span fields: the k-th stored span of every request reads back with the trace_state, dropped attribute / event / link "
+                  "counts, flags and links (ids, trace_state, attributes, dropped count, flags) of the k-th pushed span (%d pushed spans carry such fields, %d links)"
+                  % (nmore, nlinks), not yv, "violating case ids: %s" % yv[:10])
+    if yv and not viol:
+        w = min((byid[i] for i in yv), key=size_of)
+        ck.violation({"property": PID, "kind": "a stored OTLP span reads back with another trace_state, other dropped counts, flags or links than were pushed", "case": slim(w),
+                      "read": w["read"], "replay": "harness spans --cases <file holding the 'case' object on one line> --out /dev/stdout"})
+    ck.extra["otlp_spans_with_trace_state_counts_links_flags"] = nmore
+    ck.extra["otlp_links_pushed"] = nlinks
     # the legacy JSON form of OTLP payloads (parseOTLPJson; the JS writer stored it): every stored span of the run, re-written in that form, must read
     # back like its protobuf form (whose read-back the model and spec_ok judge), outside the three recorded divergences
     jd = [c for c in cases if c.get("json_diff")]
@@ -546,7 +576,9 @@ def run_spans(ck):
                             "incl. surrogate pairs (30%%) or additionally every third character as \\u00XX (20%%); the number -0; ports and annotation timestamps in "
                             "fraction / exponent / out-of-range forms; kind; 0-3 annotations with proper and improper members; on one NDJSON request in eight a tail "
                             "after a span object: garbage, a second object, a comma, a bracket, a scalar or whitespace), 30%% of the OTLP spans with 0-2 events "
-                            "(time, name, attributes) and a status, "
+                            "(time, name, attributes) and a status, 20%% with trace_state, dropped counts (0, 2^32-1, small, random), flags and 0-2 links (ids, state, attributes, count, flags; "
+                            "one link in six an empty message), resource groups without the resource message mixed with ordinary ones (8%% of the OTLP requests), scope message absent / empty / "
+                            "with name, version and a service.name attribute that must not leak, schema urls, "
                             "the requests around and above the 1 MiB flush threshold (accumulated size exactly 1 MiB, 1 MiB + 1, 2.4 MiB, failures after a flush in Zipkin and "
                             "OTLP; quick tier: one per class, thorough: seven), Zipkin requests of 40-320 spans with bodies of 74-180 kB (beyond the decoders' 64 KiB "
                             "read buffers) in both framings (quick: four, thorough: six) and lines beyond 64 KiB; every body is delivered to the parser either in one piece (35%%), byte by byte (10%%), in 1..1500-byte "
@@ -628,9 +660,9 @@ def run(ck):
         run_replay(ck)
         return
     ck.trusted += [
-        "C06: the OTLP payload is concrete (SpansWireX.enc_spanx = proto.Marshal byte for byte on every stored payload of the run, events and status included; "
-        "dec_spanx (enc_spanx s x) = (s, x) proved); UTF-8 validation of protobuf strings and span fields the generator never sets (links, trace_state, flags, dropped "
-        "counts, event dropped count) are not modelled; the legacy JSON form of OTLP payloads (parseOTLPJson, written by the JS writer only) is not modelled in Coq: "
+        "C06: the OTLP payload is concrete (SpansWireY.enc_spany = proto.Marshal byte for byte on every stored payload of the run: events, status, trace_state, dropped "
+        "counts, links and flags included; dec_spany (enc_spany s x y) = (s, x, y) proved); UTF-8 validation of protobuf strings and the dropped_attributes_count of an "
+        "EVENT (the one span field the generator never sets) are not modelled; the legacy JSON form of OTLP payloads (parseOTLPJson, written by the JS writer only) is not modelled in Coq: "
         "it is compared, span by span, with the read-back of the protobuf form outside Coq",
         "C06: the Zipkin payload is a JSON TOKEN STREAM (SpansJson: the write path's walk, the read path's parse, fields, kind, annotations are Gallina over tokens); "
         "the tokenizers themselves (bytes -> tokens: whitespace, escape decoding, number scanning, UTF-8) are the oracle: jx on every element text, fastjson on every "
